@@ -36,6 +36,9 @@ type InstCase struct {
 	// Peers: that many other instances publish PeerBlobs snapshots each, interleaved (several downloaders
 	// compete for the memory limits while newer snapshots supersede the ones not yet merged)
 	Peers int `json:"peers,omitempty"`
+	// StuckAtStart: a snapshot of another instance is in the bucket before the instance starts, and its download
+	// fails every time: the instance is still in its start-up phase (waiting for that snapshot) when it is cancelled
+	StuckAtStart bool `json:"stuck_at_start,omitempty"`
 }
 
 var instSeq atomic.Int64
@@ -62,6 +65,17 @@ func checkInstance(c InstCase, o *vcore.Obs) error {
 	}
 	ev := events.New()
 	dbname := fmt.Sprintf("cdb%d", instSeq.Add(1)%4)
+	if c.StuckAtStart {
+		m := model.Snap{FormatVersion: 3, CompatVersion: 1, Meta: model.Meta{InstanceID: "stuck", DatabaseName: dbname},
+			DBIs: []model.DBI{{Name: "data", Entries: []model.KV{{Key: []byte("s"), Val: model.ValOf([]byte("sv")), TS: 5}}}}}
+		pb, _ := m.ToGogo().Marshal()
+		b.Put(snapshot.Name(dbname, "stuck", "GX", time.Now().Add(-time.Hour)), gz(pb))
+		fails := make([]string, 100000)
+		for i := range fails {
+			fails[i] = fault.Fail
+		}
+		h.SetPlanFor("load", "__stuck__", fails)
+	}
 	s, err := syncer.New(dbname, env.Env, h, conf, config.LMDB{SchemaTracksChanges: c.Native}, syncer.Options{Events: ev})
 	if err != nil {
 		return err
@@ -183,6 +197,7 @@ func checkInstance(c InstCase, o *vcore.Obs) error {
 	o.ClassIf(c.Faults, "storage-faults")
 	o.ClassIf(c.Peers > 1, "several-peers")
 	o.ClassIf(c.Peers > 1 && c.Limit == 1, "several-peers-limit-1")
+	o.ClassIf(c.StuckAtStart, "cancelled-while-still-waiting-for-a-start-up-snapshot")
 	return nil
 }
 
@@ -194,6 +209,6 @@ func TestC17Instance(t *testing.T) {
 				Writes: rapid.IntRange(0, 40).Draw(t, "writes"), PeerBlobs: rapid.IntRange(0, 12).Draw(t, "peer"),
 				SubCloseAt: rapid.IntRange(0, 4).Draw(t, "subclose"), HandleFailAt: rapid.IntRange(0, 4).Draw(t, "handlefail"),
 				Limit: rapid.IntRange(1, 3).Draw(t, "limit"), Corrupt: rapid.Bool().Draw(t, "corrupt"), Faults: rapid.Bool().Draw(t, "faults"),
-				Peers: rapid.IntRange(1, 4).Draw(t, "peers")}
+				Peers: rapid.IntRange(1, 4).Draw(t, "peers"), StuckAtStart: rapid.IntRange(0, 3).Draw(t, "stuck") == 0}
 		}, checkInstance)
 }
